@@ -21,6 +21,9 @@ const PROPS: &[Prop] = &[
     Prop { id: "C09", level: "exploration", run: props::c09::run, replay: props::c09::replay },
     Prop { id: "C10", level: "fault_enumeration", run: props::c10::run, replay: props::c10::replay },
     Prop { id: "C11", level: "exploration", run: props::c11::run, replay: props::c11::replay },
+    Prop { id: "C12", level: "exploration", run: props::c12::run, replay: props::c12::replay },
+    Prop { id: "C13", level: "exploration", run: props::c13::run, replay: props::c13::replay },
+    Prop { id: "C14", level: "exploration", run: props::c14::run, replay: props::c14::replay },
 ];
 
 fn usage() -> ! {
